@@ -190,6 +190,10 @@ func c02(args []string) int {
 		// committed state, not the old position plus the new generation
 		{Name: "seeded/base/tail-hidden-by-restart-while-down", Cfg: base, Alphabet: strings.Fields("W1 U START NEW SW CK:PASSIVE"), Depth: d(3, 4),
 			Seeds: [][]string{strings.Fields("W3 SW CL W3 CK:PASSIVE"), strings.Fields("W3 SW KILL W3 U CK:PASSIVE"), strings.Fields("W3 SW CL U CK:PASSIVE"), strings.Fields("W3 SW CL W3 CK:RESTART")}},
+		// litestream is down while the database and its WAL are replaced by a divergent copy of the same WAL generation
+		// (same salts, same length): what is written after the restart must not be deltas on pages of the other history
+		{Name: "seeded/base/database-swapped-while-down", Cfg: base, Alphabet: strings.Fields("W1 U START NEW SW"), Depth: d(3, 4),
+			Seeds: [][]string{strings.Fields("W3 SW SAVEDB W1 CL SWAPDB"), strings.Fields("W3 SW SAVEDB U SW CL SWAPDB"), strings.Fields("W3 SW SAVEDB W1 SW KILL SWAPDB")}},
 		{Name: "exact/chunk1/tx", Cfg: chunk1, Alphabet: aTx, Depth: d(3, 5)},
 		{Name: "exact/base/tx", Cfg: base, Alphabet: aTx, Depth: d(3, 5)},
 		{Name: "exact/chunk3/tx", Cfg: chunk3, Alphabet: aTx, Depth: d(3, 4)},
